@@ -242,7 +242,7 @@ def run(tier, seed):
                          "scenarios": res.scn, "wall_s": round(res.wall, 1)})
         vlib.log("GraphGen/%s: %d scenarios in %.1fs" % (cfg, res.scn, res.wall))
         out = vlib.replay(ENGINE, scen)
-        if out.total != res.scn:
+        if out.total != res.scn and not out.truncated:
             raise vlib.Inconclusive("replayed %d of %d scenarios of %s" % (out.total, res.scn, cfg))
         scenarios += out.total
         for k, c in out.classes.items():
